@@ -242,3 +242,51 @@ Example parse_examples :
   /\ parse_env_id [45;118;49] = VersionMissing [45;118;49]                        (* "-v1": the name may not be empty *)
   /\ get_env_id [120] 120 = [120;45;118;49;50;48].
 Proof. vm_compute. repeat split. Qed.
+
+(* ---------- the shipped registry ---------- *)
+Lemma register_all_keys l : forall R R', register_all R l = Some R' ->
+  (forall id, lookup R id <> None -> lookup R' id = lookup R id) /\
+  (forall p, In p l -> lookup R' (fst p) <> None \/ ~ canonical_b (fst p) = true).
+Proof.
+  induction l as [|[id entry] r IH]; intros R R' H; cbn [register_all] in H.
+  - inversion H; subst. split; [auto|intros p []].
+  - destruct (register R id entry []) as [R1| | |] eqn:E; try discriminate.
+    destruct (IH _ _ H) as [Keep Has]. apply register_ok in E as (name & v & P & Fresh & New & Keep1).
+    split.
+    + intros i Hi. rewrite Keep; [apply Keep1; auto|rewrite Keep1; auto].
+    + intros p [<-|Hp]; [|auto]. cbn [fst]. unfold canonical_b. rewrite P.
+      destruct (str_eqb (get_env_id name v) id) eqn:Q; [|right; congruence].
+      apply str_eqb_eq in Q. left. rewrite <- Q. rewrite Keep; rewrite New; congruence.
+Qed.
+
+(* what the boolean re-check of the dumped registry means *)
+Theorem shipped_ok_spec pattern l : shipped_ok_b pattern l = true ->
+  pattern = modelled_pattern
+  /\ (forall p, In p l -> exists n v, parse_env_id (fst p) = Parsed n v /\ get_env_id n v = fst p)
+  /\ exists R, register_all [] l = Some R /\ map fst R = map fst l
+               /\ forall p, In p l -> lookup R (fst p) <> None.
+Proof.
+  unfold shipped_ok_b. intro H. apply andb_true_iff in H as [H H3]. apply andb_true_iff in H as [H1 H2].
+  apply str_eqb_eq in H1. rewrite forallb_forall in H2. split; [auto|]. split.
+  - intros p Hp. specialize (H2 p Hp). unfold canonical_b in H2.
+    destruct (parse_env_id (fst p)) as [| |n v]; try discriminate. exists n, v. split; auto. apply str_eqb_eq; auto.
+  - destruct (register_all [] l) as [R|] eqn:E; [|discriminate]. exists R. split; auto. split.
+    + apply (proj1 (list_eqb_eq str_eqb str_eqb_eq _ _)) in H3. auto.
+    + intros p Hp. destruct (register_all_keys _ _ _ E) as [_ Has]. destruct (Has p Hp) as [|N]; auto.
+Qed.
+
+(* a registered id is refused a second time, whatever happened in between *)
+Theorem register_twice_refused ops R id entry kw R1 entry2 kw2 :
+  register R id entry kw = RegOk R1 -> register (run_regs R1 ops) id entry2 kw2 = RegOverride.
+Proof.
+  intro H. apply register_ok in H as (name & v & P & _ & New & _).
+  eapply register_dup; eauto. erewrite registry_monotone; eauto. congruence.
+Qed.
+
+(* version-less / malformed ids never parse: anything that parses has the "-v<digits>" suffix after a non-empty name *)
+Theorem parse_rejects_versionless s :
+  (forall n ds, s = n ++ 45 :: 118 :: ds -> ~ (name_ok n /\ length ds <> 0%nat /\ all_digits ds = true)) ->
+  forall n v, parse_env_id s <> Parsed n v.
+Proof.
+  intros H n v P. apply parse_sound in P as (ds & E & Hn & Hl & Hd & _). eapply H; eauto.
+Qed.
